@@ -494,6 +494,7 @@ func c18Extra(r *Run, rng *Rng) {
 	for i := 0; i < nRandProt; i++ {
 		c18Protection(r, rng, c18Algs[rng.Intn(7)], c18Pws[rng.Intn(len(c18Pws))], rng.Bool())
 	}
+	c18Ignored(r, rng, mul)
 	c18ProtHistories(r, rng, thorough)
 	c18Lap(r, "protection")
 	c18DefinedNames(r, rng, mul)
